@@ -132,10 +132,10 @@ def _strategy(max_len, containers):
 
 def legs(tier):
     ml = 8 if tier == 'quick' else 14
-    a = Leg('py', _strategy(ml, ['list', 'list', 'ndarray', 'array', 'tuple']), run_py, 4000, 320000)
+    a = Leg('py', _strategy(ml, ['list', 'list', 'ndarray', 'array', 'tuple']), run_py, 20000, 320000)
     a.essential = {'psi*window': 0.02, 'psi*max_step': 0.02, 'unequal*window': 0.02,
                    'rolling-buffer-rolls': 0.02, 'result=inf': 0.02}
-    b = Leg('py-nonumpy', _strategy(ml, ['list', 'array', 'tuple']), run_nonumpy, 1200, 48000)
+    b = Leg('py-nonumpy', _strategy(ml, ['list', 'array', 'tuple']), run_nonumpy, 4000, 48000)
     return [a, b]
 
 
